@@ -67,6 +67,9 @@ func main() {
 		return
 	}
 
+	fdir, _ := os.MkdirTemp("", "verif-c08keys-")
+	defer os.RemoveAll(fdir)
+	tsrc.FmtFileDir(fdir, "/repo")
 	var progs []tsrc.Prog
 	for _, cl := range tsrc.AllCells() {
 		o := "matrix:"
@@ -106,13 +109,25 @@ func main() {
 		oracle tsrc.Oracle
 		what   string
 		weaker func(from, to string) bool
-	}{{"C08", c08.Check, "formatting changes the program", c08.Weaker}, {"C09", c09.Check, "formatting is not idempotent", c09.Weaker}} {
+		file   tsrc.Oracle
+	}{{"C08", c08.Check, "formatting changes the program", c08.Weaker, c08.CheckFile}, {"C09", c09.Check, "formatting is not idempotent", c09.Weaker, c09.CheckFile}} {
 		t0 := time.Now()
 		os.Setenv("VERIF_DIR", "/nonexistent")
 		c := core.NewCtx(prop.id, "quick")
 		r := tsrc.NewRunner(c, prop.oracle, prop.what)
 		r.Weaker = prop.weaker
 		r.All(progs)
+		// the named-file path (imports.Process) over the import cells
+		rf := tsrc.NewRunner(c, prop.file, "templ fmt <file>: "+prop.what)
+		rf.Weaker, rf.Mode, rf.KeyPrefix, rf.NoRename = prop.weaker, "fmtfile", "fmtfile:", true
+		var iprogs []tsrc.Prog
+		for _, cl := range tsrc.ImportCells() {
+			iprogs = append(iprogs, tsrc.Prog{Origin: "cell:" + cl.Name, Src: cl.Src})
+		}
+		rf.All(iprogs)
+		for k, ki := range rf.Found {
+			r.Found[k] = ki
+		}
 		var keys []string
 		for k := range r.Found {
 			keys = append(keys, k)
@@ -194,6 +209,9 @@ func main() {
 				}
 				have[rp.Key] = true
 				o := prop.oracle(rp.Case.Src)
+				if rp.Case.Mode == "fmtfile" {
+					o = prop.file(rp.Case.Src)
+				}
 				ki := &tsrc.KeyInfo{Key: rp.Key, Class: o.Class, Detail: o.Detail, Src: rp.Case.Src}
 				f := family(prop.id, ki)
 				findings = append(findings, core.Finding{Property: prop.id, Key: rp.Key,
